@@ -120,6 +120,8 @@ S_<TN_, TA_, TH_>::deepPreUpdate(FullControl& control) noexcept {
 
 	ScopedOrigin origin{control, STATE_ID};
 
+	control._taskStatus.clear();
+
 	Head::widePreUpdate(control);
 	Head::	  preUpdate(control);
 
@@ -137,6 +139,8 @@ S_<TN_, TA_, TH_>::deepUpdate(FullControl& control) noexcept {
 
 	ScopedOrigin origin{control, STATE_ID};
 
+	control._taskStatus.clear();
+
 	Head::wideUpdate(control);
 	Head::	  update(control);
 
@@ -153,6 +157,8 @@ S_<TN_, TA_, TH_>::deepPostUpdate(FullControl& control) noexcept {
 						   Method::POST_UPDATE);
 
 	ScopedOrigin origin{control, STATE_ID};
+
+	control._taskStatus.clear();
 
 	Head::	  postUpdate(control);
 	Head::widePostUpdate(control);
@@ -179,6 +185,8 @@ S_<TN_, TA_, TH_>::deepPreReact(EventControl& control,
 
 	ScopedOrigin origin{control, STATE_ID};
 
+	control._taskStatus.clear();
+
 	Head::widePreReact(event, control);
 	(this->*method) (event, control);
 
@@ -204,6 +212,8 @@ S_<TN_, TA_, TH_>::deepReact(EventControl& control,
 
 	ScopedOrigin origin{control, STATE_ID};
 
+	control._taskStatus.clear();
+
 	Head::wideReact(event, control);
 	(this->*method)(event, control);
 
@@ -228,6 +238,8 @@ S_<TN_, TA_, TH_>::deepPostReact(EventControl& control,
 						   Method::POST_REACT);
 
 	ScopedOrigin origin{control, STATE_ID};
+
+	control._taskStatus.clear();
 
 	(this->*method)	   (event, control);
 	Head::widePostReact(event, control);
